@@ -1629,7 +1629,9 @@ func checkC17(r *Run) error {
 				segs := h.render(seeds[i])
 				st.samples = append(st.samples, map[string]any{"population": h.Population, "ops": h.Ops, "first_program": tail(segs[0].Program, 1200), "scripts": len(segs), "result": kinds[i]})
 			}
-			if kinds[i] != "" {
+			if kinds[i] != "" && len(r.Viol) < 6 && (len(r.Viol) == 0 || c17FullMinimisations < 24) {
+				// (a change that breaks most histories would otherwise have hundreds of them minimised one by
+				// one; attributions to a listed finding by counterfactual are not counted)
 				c17Report(r, h, seeds[i], kinds[i], details[i], cfPass[i])
 			}
 		}
@@ -1714,6 +1716,8 @@ func (h *c17Hist) withContents(words []string) *c17Hist {
 }
 
 // c17Report minimises a failing history (ops, then features) and reports it.
+var c17FullMinimisations int
+
 func c17Report(r *Run, h *c17Hist, seed uint64, kind, detail string, cfPass bool) {
 	fails := func(c *c17Hist) (bool, string, string) {
 		if !c.valid() {
@@ -1748,6 +1752,7 @@ func c17Report(r *Run, h *c17Hist, seed uint64, kind, detail string, cfPass bool
 			h, kind, detail = c, k2, d2
 		}
 	}
+	c17FullMinimisations++
 	cur := h
 	// 1. fewer operations (any failure counts: the class is decided afterwards by the necessary features)
 	budget := 120
